@@ -967,6 +967,17 @@ class Midline(
             )
 
         ipsi_evo = self.ext.ipsi.state_dist_evo()
+        # contralateral evolution *given* the midline extension status at each time
+        contra_evo = {}
+        contra_evo["noext"], contra_evo["ext"] = self.contra_state_dist_evo()
+        for case, joint_evo in contra_evo.items():
+            norm = joint_evo.sum(axis=1, keepdims=True)
+            contra_evo[case] = np.divide(
+                joint_evo,
+                norm,
+                out=np.zeros_like(joint_evo),
+                where=norm > 0.0,
+            )
         num_ipsi_cols = self.ext.ipsi.obs_list.shape[1]
         num_contra_cols = self.ext.contra.obs_list.shape[1]
         drawn_diags = np.empty(shape=(num, num_ipsi_cols + num_contra_cols))
@@ -982,7 +993,7 @@ class Midline(
             )
             drawn_contra_diags = utils.draw_diagnosis(
                 diagnosis_times=drawn_diag_times[drawn_midexts == (case == "ext")],
-                state_evolution=case_model.contra.state_dist_evo(),
+                state_evolution=contra_evo[case],
                 observation_matrix=case_model.contra.observation_matrix(),
                 possible_diagnosis=case_model.contra.obs_list,
                 rng=rng,
